@@ -28,7 +28,7 @@ def run(tier, seed, model):
     rng = random.Random(seed * 7919 + 1)
     nsess = 70 if tier == "quick" else 1500
     tail = 7 if tier == "quick" else 10
-    batch = Batch(model)
+    batch = Batch(model, camp, "C01")
     for i in range(nsess):
         variant = rng.choice([0, 1, 1, 2])
         pw = rng.choice([None, "pw", "longerpassword"])
